@@ -111,6 +111,8 @@ where
     pub events: Vec<Value>,
     pub listener: i64,
     pub seq: i64,
+    /// generator bias: most traffic goes to this peer (0 = no bias)
+    pub bias_peer: i64,
 }
 
 impl<B: Suite> Run<B>
@@ -141,11 +143,11 @@ where
         rig.world.push_event(Ev::NewAddress(lid, addr(100)));
         rig.poll_quiescent();
         rig.log.drain();
-        Run { rig, slot_conn: vec![], upg_conn: vec![], used: vec![], events: vec![], listener, seq: 0 }
+        Run { rig, slot_conn: vec![], upg_conn: vec![], used: vec![], events: vec![], listener, seq: 0, bias_peer: 0 }
     }
 
     pub fn from_rig(rig: Rig<B>, listener: i64) -> Run<B> {
-        Run { rig, slot_conn: vec![], upg_conn: vec![], used: vec![], events: vec![], listener, seq: 0 }
+        Run { rig, slot_conn: vec![], upg_conn: vec![], used: vec![], events: vec![], listener, seq: 0, bias_peer: 0 }
     }
 
     fn flush(&mut self) {
@@ -504,7 +506,7 @@ where
         let k = r.gen_range(0..100);
         match k {
             0..=13 if nconn < maxconn => {
-                let peer: i64 = if r.gen_bool(0.12) { -1 } else if r.gen_bool(0.06) { 0 } else { r.gen_range(1..=2) };
+                let peer: i64 = if run.bias_peer > 0 && r.gen_bool(0.85) { run.bias_peer } else if r.gen_bool(0.12) { -1 } else if r.gen_bool(0.06) { 0 } else { r.gen_range(1..=2) };
                 let conds = ["Always", "Disconnected", "NotDialing", "DisconnectedAndNotDialing"];
                 let na = if peer < 0 { 1 } else { r.gen_range(1..=2) };
                 let addrs: Vec<i64> = (0..na).map(|_| r.gen_range(1..=3)).collect();
@@ -522,7 +524,7 @@ where
             }
             45..=58 if !open_u.is_empty() => {
                 let u = open_u[r.gen_range(0..open_u.len())];
-                let who = if r.gen_bool(0.1) { 0 } else { r.gen_range(1..=2) };
+                let who = if run.bias_peer > 0 && r.gen_bool(0.85) { run.bias_peer } else if r.gen_bool(0.1) { 0 } else { r.gen_range(1..=2) };
                 return json!({"c": "envUpgrade", "u": u, "ok": r.gen_bool(0.75), "who": who});
             }
             59..=63 if nconn > 0 => return json!({"c": "failMux", "id": r.gen_range(1..=nconn as i64)}),
